@@ -155,7 +155,7 @@ theorem scan_exclusive_partial (sched : List (Tid × Act)) : (runG init sched).s
   scanOk_of_inv (runG_inv sched inv_init)
 
 /-- The same, pointwise. -/
-theorem scan_exclusive_partial' (sched : List (Tid × Act)) (t : Tid) (th : Thread)
+theorem scan_exclusive_partial_pointwise (sched : List (Tid × Act)) (t : Tid) (th : Thread)
     (hth : (runG init sched).threads[t]? = some th) (hsc : 0 < th.scanned) : th.pc.safe = true :=
   inv_scan (runG_inv sched inv_init) hth hsc
 
@@ -233,6 +233,44 @@ theorem not_env_coherent : ¬ EnvCoherent := by
   rw [lateRegistration_violates.2] at this
   cases this
 
+/-! ## The code as it is now
+
+Since /repo commit d9e2a72a (fix of K16a) the heap-lock guard taken in front of `with_locked_env` is kept until
+it returns: the model of the current code is the variant `State.fix = true`, initial state `initFix`
+(`translate/c16_callpaths.py` re-derives that from the sources on every run: `C16.GenCallPaths.gate_keeps_guard`).
+The theorems above are stated for `init` (the protocol before that fix); the invariant does not depend on the
+variant, so all of them hold for the current code as well, and so do the counterexamples: K15a and K15b are
+not repaired by serialising the stoppers. -/
+
+/-- The initial state of the model of the current code. -/
+def code : State := initFix
+
+theorem scan_exclusive_partial_code (sched : List (Tid × Act)) : (runG code sched).scanOk = true :=
+  scanOk_of_inv (runG_inv sched inv_initFix)
+
+theorem env_coherent_partial_code (sched : List (Tid × Act)) :
+    (runG code sched).stopper = none → (runG code sched).envOk = true :=
+  inv_env (runG_inv sched inv_initFix)
+
+theorem exitRace_violates_code : (run code exitRace).scanOk = false := by decide
+
+theorem lateRegistration_violates_code :
+    (run code lateRegistration).stopper = none ∧ (run code lateRegistration).envOk = false := by decide
+
+/-- **C15, full statements for the current code: still false** (findings K15a, K15b). -/
+theorem not_scan_exclusive_code : ¬ ∀ sched : List (Tid × Act), (run code sched).scanOk = true := by
+  intro h
+  have := h exitRace
+  rw [exitRace_violates_code] at this
+  cases this
+
+theorem not_env_coherent_code :
+    ¬ ∀ sched : List (Tid × Act), (run code sched).stopper = none → (run code sched).envOk = true := by
+  intro h
+  have := h lateRegistration lateRegistration_violates_code.1
+  rw [lateRegistration_violates_code.2] at this
+  cases this
+
 /-! ## Non-vacuity -/
 
 /-- A complete guarded round: thread 0 updates a global while thread 1 is parked at the dispatch poll; the
@@ -255,6 +293,11 @@ theorem goodRound_completes :
     let s := runG init (goodRound ++ goodRoundRest)
     s.stopper = none ∧ s.ver = 1 ∧ s.threads.map (·.env) = [some 1, some 1] ∧
     s.threads.map (·.token) = [true, true] := by
+  decide
+
+theorem goodRound_completes_code :
+    let s := runG code (goodRound ++ goodRoundRest)
+    s.stopper = none ∧ s.ver = 1 ∧ s.hlock = none ∧ s.threads.map (·.env) = [some 1, some 1] := by
   decide
 
 end SteelVerif.C15
